@@ -71,22 +71,28 @@ func (c *FnCtx) ghostIntrinsic(fr *Frame, st *State, fn *ssa.Function, args []*T
 	ts := c.eng.ts
 	switch fn.Name() {
 	case "verifBuf": // content of a *bytes.Buffer / *strings.Builder
-		return []*Term{ts.Select(c.gheap(st, "G:buf"), args[0])}, true
+		return []*Term{c.gget(st, "G:buf", args[0])}, true
 	case "verifRdPos": // number of bytes consumed from reader so far
-		return []*Term{ts.Select(c.gheap(st, "G:rdpos"), c.ioID(args[0]))}, true
+		return []*Term{c.gget(st, "G:rdpos", c.ioID(args[0]))}, true
 	case "verifRdData": // the whole byte stream the reader will ever deliver
 		return []*Term{ts.UF("rddata", SString, c.ioID(args[0]))}, true
 	case "verifRdEOF":
-		return []*Term{ts.Select(c.gheap(st, "G:rdeof"), c.ioID(args[0]))}, true
+		return []*Term{c.gget(st, "G:rdeof", c.ioID(args[0]))}, true
 	case "verifWritten":
-		return []*Term{ts.Select(c.gheap(st, "G:wr"), c.ioID(args[0]))}, true
+		return []*Term{c.gget(st, "G:wr", c.ioID(args[0]))}, true
 	case "verifTokPos":
-		return []*Term{ts.Select(c.gheap(st, "G:xdpos"), args[0])}, true
+		return []*Term{c.gget(st, "G:xdpos", args[0])}, true
 	case "verifFresh": // object allocated during this call
 		if fr == nil || c.entryWM == nil {
 			return []*Term{ts.Bool(true)}, true
 		}
 		return []*Term{ts.Ge(args[0], c.entryWM)}, true
+	case "verifRangeCount": // entries delivered so far by the map-range loop with the given ordinal
+		k, ok := args[0].IntLit()
+		if !ok || c.curFrame == nil || c.curFrame.iterByLoop[int(k)] == nil {
+			unsupported("verifRangeCount: no map-range loop #%v known at this point", k)
+		}
+		return []*Term{c.getCell(st, c.curFrame.iterByLoop[int(k)].count)}, true
 	case "verifIsNaN":
 		return []*Term{ts.UF("f64!isnan", SBool, args[0])}, true
 	case "verifIsInf":
@@ -207,13 +213,13 @@ func (c *FnCtx) model(fr *Frame, st *State, x *ssa.Call, name string, args []*Te
 		return []*Term{o}
 	case "(*bytes.Buffer).WriteString", "(*strings.Builder).WriteString", "(*bytes.Buffer).Write", "(*strings.Builder).Write":
 		use("Buffer/Builder.Write*: appends to the content, returns (len, nil)")
-		old := ts.Select(c.gheap(st, "G:buf"), args[0])
+		old := c.gget(st, "G:buf", args[0])
 		c.gset(st, "G:buf", args[0], ts.Concat(old, args[1]))
 		return []*Term{ts.Len(args[1]), nilVal(ts)}
 	case "(*bytes.Buffer).Bytes", "(*bytes.Buffer).String", "(*strings.Builder).String":
-		return []*Term{ts.Select(c.gheap(st, "G:buf"), args[0])}
+		return []*Term{c.gget(st, "G:buf", args[0])}
 	case "(*bytes.Buffer).Len", "(*strings.Builder).Len":
-		return []*Term{ts.Len(ts.Select(c.gheap(st, "G:buf"), args[0]))}
+		return []*Term{ts.Len(c.gget(st, "G:buf", args[0]))}
 	case "bytes.NewReader", "strings.NewReader":
 		use("bytes.NewReader(b): a reader object whose stream is exactly b, position 0")
 		o := c.allocObj(st, "rdr")
@@ -237,7 +243,7 @@ func (c *FnCtx) model(fr *Frame, st *State, x *ssa.Call, name string, args []*Te
 		e := c.maybeErr(st, "write")
 		c.addFact(st, ts.And(ts.Le(ts.Int(0), n), ts.Le(n, ts.Len(args[1]))))
 		c.addFact(st, ts.Implies(ts.Lt(n, ts.Len(args[1])), ts.Not(tc.IsNilVal(e))))
-		old := ts.Select(c.gheap(st, "G:wr"), id)
+		old := c.gget(st, "G:wr", id)
 		c.gset(st, "G:wr", id, ts.Concat(old, ts.Extract(args[1], ts.Int(0), n)))
 		return []*Term{n, e}
 	case "(error).Error":
@@ -373,8 +379,8 @@ func (c *FnCtx) readModel(fr *Frame, st *State, x *ssa.Call, rd, p *Term, cc *ss
 	tc := c.eng.tc
 	id := c.ioID(rd)
 	data := ts.UF("rddata", SString, id)
-	pos := ts.Select(c.gheap(st, "G:rdpos"), id)
-	eofSeen := ts.Select(c.gheap(st, "G:rdeof"), id)
+	pos := c.gget(st, "G:rdpos", id)
+	eofSeen := c.gget(st, "G:rdeof", id)
 	n := ts.Fresh("rd!n", SInt)
 	e := ts.Fresh("rd!err", SVal)
 	eof := ts.Named("g!io.EOF", SVal)
